@@ -136,6 +136,15 @@ Write(c) ==
     /\ unsent' = [unsent EXCEPT ![c] = @ - 1]
     /\ UNCHANGED <<sent, result, delivered, chan, up, failed, gen, tasks, win, retry, rtimes, served>>
 
+(* handle_conn, phase 2 under write backpressure: the sink is not ready (poll_ready = Pending).  As implemented    *)
+(* nothing happens (the packet stays at the head of `packets`): a stuttering step.  The seeded design error       *)
+(* "drop_on_backpressure" pops the packet first and forgets it when the sink turns out not to be ready.          *)
+WriteBlocked(c) ==
+    /\ Variant = "drop_on_backpressure"
+    /\ up[c] /\ unsent[c] > 0
+    /\ unsent' = [unsent EXCEPT ![c] = @ - 1]
+    /\ UNCHANGED <<sent, result, delivered, chan, up, failed, gen, tasks, wout, win, retry, rtimes, served>>
+
 (* the backend answers the next request it received on this connection *)
 Serve(c) ==
     /\ up[c] /\ wout[c] # <<>>
@@ -182,7 +191,7 @@ Next ==
     \/ Deliver
     \/ \E c \in Conns :
           \/ ConnectOk(c) \/ ConnectFail(c) \/ FailDrain(c)
-          \/ Receive(c) \/ Write(c) \/ Serve(c) \/ Read(c) \/ PollEnd(c)
+          \/ Receive(c) \/ Write(c) \/ WriteBlocked(c) \/ Serve(c) \/ Read(c) \/ PollEnd(c)
           \/ ConnErr(c, FALSE) \/ ConnErr(c, TRUE)
 
 \* After MaxGen generations the environment stops breaking things: the last connection stays up.
@@ -192,7 +201,7 @@ NextCalm ==
     \/ Deliver
     \/ \E c \in Conns :
           \/ ConnectOk(c) \/ ConnectFail(c) \/ FailDrain(c)
-          \/ Receive(c) \/ Write(c) \/ Serve(c) \/ Read(c) \/ PollEnd(c)
+          \/ Receive(c) \/ Write(c) \/ WriteBlocked(c) \/ Serve(c) \/ Read(c) \/ PollEnd(c)
           \/ (~Calm(c) /\ (ConnErr(c, FALSE) \/ ConnErr(c, TRUE)))
 
 Spec == Init /\ [][Next]_vars
